@@ -136,8 +136,8 @@ impl XDiscreteDistribution {
         }
     }
 
-    fn quantile(&self, x: f64) -> LazyBigint {
-        match self {
+    fn quantile(&self, x: f64) -> Option<LazyBigint> {
+        Some(match self {
             Self::Binomial(i) => inverse_cdf(i, x).into(),
             Self::Custom(items) => {
                 let idx = items.partition_point(|(_, p)| p <= &x);
@@ -149,8 +149,7 @@ impl XDiscreteDistribution {
                     let p = i.p();
                     (((1.0 - x) / (1.0 - p)).ln() / (1.0 - p).ln())
                         .floor()
-                        .to_i64()
-                        .unwrap()
+                        .to_i64()?
                         .into()
                 } else {
                     inverse_cdf(i, x).into()
@@ -159,10 +158,9 @@ impl XDiscreteDistribution {
             Self::Poisson(i) => inverse_cdf(i, x).into(),
             Self::Uniform(i) => (x * ((i.max() - i.min() + 1) as f64) + (i.min() - 1) as f64)
                 .floor()
-                .to_i64()
-                .unwrap()
+                .to_i64()?
                 .into(),
-        }
+        })
     }
 
     fn sample(&self, n: usize, rng: &mut impl RngCore) -> Vec<LazyBigint> {
@@ -499,7 +497,10 @@ pub(crate) fn add_discdist_quantile<W, R, T>(
             if *f1 > 1.0 || *f1 < 0.0 {
                 return xerr(ManagedXError::new("quantile must be between 0 and 1", rt)?);
             }
-            Ok(ManagedXValue::new(XValue::Int(d0.quantile(*f1)), rt)?.into())
+            let Some(ret) = d0.quantile(*f1) else {
+                return xerr(ManagedXError::new("value out of bounds", rt)?);
+            };
+            Ok(ManagedXValue::new(XValue::Int(ret), rt)?.into())
         }),
     )
 }
